@@ -536,3 +536,26 @@ PLANS["C04"] = dict(
         validate=dict(module="Trace_Verifier", cfg=trace_cfg(["verdict", "outcome", "authenticity", "results", "actions"])),
     )],
 )
+
+# ------------------------------------------------------------------ C06
+PLANS["C06"] = dict(
+    level_text="Time is an integer line around the moment of verification (0 is never a datum); TLC checks the staged checks of "
+               "verifyAuthenticTimestamp/verifyTimestamp (tsa store listed?, verifyTimestamp option, chain expired?, countersignature present, "
+               "parsable, over the signature value, TSA trusted, TSA purpose, time range inside every certificate window, TSA revocation) against "
+               "the declarative statement for all signing/expiry times, per-certificate windows (chains of 1-2, thorough 3), both schemes, "
+               "tsa store x option x countersignature kind (absent, garbage, wrong message, untrusted TSA, mis-purposed TSA, revoked TSA, ok at "
+               "every time x accuracy); every case is replayed with really minted chains having those windows and RFC 3161 tokens issued by a "
+               "mini-TSA written for this harness (CMS SignedData / TSTInfo via encoding/asn1) over the real signature value.",
+    level_note="Trusted: TLC, Go crypto, tspclient-go token parsing/verification. Comparisons against the wall clock are exercised with hour "
+               "margins; comparisons between two data values (signing time vs windows, timestamp +/- accuracy vs windows) also at equality.",
+    rule="cases = InputSpace of MC_Verifier_C06; non-trivial = chain not valid at the trusted time, expired signature, or timestamp verification applies",
+    exhaustive=True,
+    phases=[dict(
+        name="clocks",
+        gen=dict(module="MC_Verifier_C06",
+                 cfg=lambda tier, seed: mc_cfg(["Inv_C06_TS", "Inv_C06", "Inv_Exact", "Inv_Emit"], consts=["ChainLens = {1, 2, 3}" if tier == "thorough" else "ChainLens = {1, 2}"]),
+                 select=slicer(60000)),
+        drive=dict(driver="verifier"),
+        validate=dict(module="Trace_Verifier", cfg=trace_cfg(["verdict", "outcome", "results", "actions"])),
+    )],
+)
